@@ -33,6 +33,28 @@ WITNESS = {
 }
 
 
+class CaseTimeout(BaseException):
+    """the implementation did not return within the per-case limit"""
+
+
+def _alarm(signum, frame):
+    raise CaseTimeout()
+
+
+def limited(sec, fn, *a):
+    """run fn(*a) in-process under a wall-clock limit (a walk that never ends must fail the check, not hang it)"""
+    import signal
+    old = signal.signal(signal.SIGALRM, _alarm)
+    signal.setitimer(signal.ITIMER_REAL, sec)
+    try: return fn(*a)
+    finally:
+        signal.setitimer(signal.ITIMER_REAL, 0)
+        signal.signal(signal.SIGALRM, old)
+
+
+CASE_LIMIT = 120.0
+
+
 def _unlimit():
     try: resource.setrlimit(resource.RLIMIT_STACK, (resource.RLIM_INFINITY, resource.RLIM_INFINITY))
     except Exception:
@@ -86,7 +108,9 @@ def witness_flags(ctx):
     for key, rec in WITNESS.items():
         fails = []
         try:
-            L.check_recipe(rec, lambda k, o, r: fails.append((k, o, r)))
+            limited(CASE_LIMIT, L.check_recipe, rec, lambda k, o, r: fails.append((k, o, r)))
+        except CaseTimeout:
+            fails.append(('witness-does-not-terminate', '', ''))
         except Exception as e:
             fails.append(('witness-raises', repr(e), ''))
         flags[key] = bool(fails)
@@ -97,6 +121,7 @@ class Stats:
     def __init__(self):
         self.dist = collections.Counter()
         self.tot = collections.Counter()
+        self.stop = False          # set when the implementation stopped terminating: the sweep is cut short
 
 
 def note(st, r):
@@ -118,7 +143,12 @@ def one_case(ctx, st, recipe, exe_line=None):
     """oracle on one recipe; returns the objects for the correspondence"""
     fails = []
     try:
-        stats, geo, grid, geo1, bm, err = L.check_recipe(recipe, lambda k, o, r: fails.append((k, o, r)))
+        stats, geo, grid, geo1, bm, err = limited(CASE_LIMIT, L.check_recipe, recipe, lambda k, o, r: fails.append((k, o, r)))
+    except CaseTimeout:
+        ctx.count(json.dumps(recipe, sort_keys=True))
+        ctx.failure(ORACLE, 'rectgeo:does-not-terminate', {'recipe': recipe}, 'no result within %g s' % CASE_LIMIT, 'a geometry and a block map')
+        st.stop = True
+        return None
     except Exception as e:
         name = type(e).__name__
         if name == 'NamingConventionError':
@@ -147,10 +177,11 @@ def sweep(ctx, exe, st, n_exact, n_other, flags, maxn=(12, 12, 14)):
     done = 0
     forced = [dict(n=(1, 3, 2)), dict(n=(3, 1, 2)), dict(n=(1, 2, 3), mode='stepped'), dict(n=(2, 1, 3), mode='stepped'),
               dict(n=(12, 12, 14), mode='flat'), dict(n=(12, 12, 14), mode='slope'), dict(n=(2, 2, 2)), dict(n=(12, 1, 14)), dict(n=(1, 12, 14))]
-    while done < n_exact:
+    while done < n_exact and not st.stop:
         k = min(120, n_exact - done)
         batch = []
         for i in range(k):
+            if st.stop: break
             force = forced[done + i] if done + i < len(forced) else None
             r = L.gen_recipe(ctx.rng, 'exact', maxn=maxn, force=force)
             if force is None and (done + i) % 9 == 0:       # the two defect classes, every time
@@ -177,10 +208,11 @@ def sweep(ctx, exe, st, n_exact, n_other, flags, maxn=(12, 12, 14)):
         done += k
         ctx.log('exact cases (correspondence + oracle): %d (%.0fs)' % (done, time.time() - t0))
     done = 0
-    while done < n_other:
+    while done < n_other and not st.stop:
         k = min(200, n_other - done)
         m = 0
         for _ in range(k):
+            if st.stop: break
             r = L.gen_recipe(ctx.rng, ctx.rng.choice(['float', 'float', 'file']), maxn=maxn)
             if one_case(ctx, st, r) is not None: m += 1
         ctx.oracle_cases(ORACLE, m)
@@ -223,7 +255,7 @@ def run(ctx):
         ctx.rng = rng
         n = 0
         cap = 6000 if ctx.thorough else 1200
-        while n < cap and not ctx.new_failures:
+        while n < cap and not ctx.new_failures and not st.stop:
             one_case(ctx, st, L.gen_recipe(rng, None))
             n += 1
 
@@ -237,7 +269,10 @@ def replay(ctx, data):
     if recipe is None:
         print('replay: no concrete input recorded'); return True
     fails = []
-    L.check_recipe(recipe, lambda k, o, r: fails.append((k, o, r)))
+    try:
+        limited(CASE_LIMIT, L.check_recipe, recipe, lambda k, o, r: fails.append((k, o, r)))
+    except CaseTimeout:
+        fails.append(('rectgeo:does-not-terminate', 'no result within %g s' % CASE_LIMIT, 'a geometry and a block map'))
     for k, o, r in classify(recipe, fails)[:5]: print('replay: %s: observed %s; required %s' % (k, o, r))
     if not fails: print('replay: the property statement holds on this input')
     return bool(fails)
